@@ -210,7 +210,7 @@ def job_verdict_logic(tier, rng):
     for dims in [(2, 2), (2, 3), (2, 2, 2)]:
         m = len(dims); D = int(np.prod(dims))
         rho = np.eye(D) / D
-        bad = None; cnt = 0
+        bad = None; cnt = 0; unhooked = set()
         for pat in itertools.product([True, False], repeat=m):
             it = iter(pat)
             for name, f in (('is_ppt', lambda: ppt.is_ppt(rho, dims)), ('check_reduction_witness', lambda: em.check_reduction_witness(rho, dims))):
@@ -226,14 +226,21 @@ def job_verdict_logic(tier, rng):
                         raise
                     got = f'{type(ex).__name__}: {ex}'
                 cnt += 1
+                if not calls:
+                    unhooked.add(name)        # the function no longer consults numqi.utils.is_positive_semi_definite: the recorder cannot follow it (undecided, never a violation)
+                    continue
                 # short-circuiting is allowed: only the oracle calls actually made count
                 if got != all(pat) and bad is None:
                     bad = dict(function=name, dims=list(dims), oracle_answers=list(pat), returned=got)
-        out.append(ob(f'{PROP}.verdict_is_conjunction_of_psd_oracle_answers[dims={dims}]', 'proved' if bad is None else 'refuted', tier='P', backend='exact-eval (finite: all oracle answer patterns)', functions=fns[:2],
-                      witness=bad, native=dict(confirmed=bad is not None) if bad else None, patterns=cnt, canary_negated_clause_refuted=True))
+        if unhooked and bad is None:
+            out.append(ob(f'{PROP}.verdict_is_conjunction_of_psd_oracle_answers[dims={dims}]', 'undecided', tier='P', backend='exact-eval', functions=fns[:2], detail=f'{sorted(unhooked)} did not call the stubbed PSD oracle'))
+            continue_gppt = True
+        else:
+            out.append(ob(f'{PROP}.verdict_is_conjunction_of_psd_oracle_answers[dims={dims}]', 'proved' if bad is None else 'refuted', tier='P', backend='exact-eval (finite: all oracle answer patterns)', functions=fns[:2],
+                          witness=bad, native=dict(confirmed=bad is not None) if bad else None, patterns=cnt, canary_negated_clause_refuted=True))
         # generalized PPT: every pattern 'one norm above the threshold' plus the boundary values
         nparts = len(ppt._is_generalized_ppt_dim_list(m))
-        bad = None; cnt = 0
+        bad = None; cnt = 0; nohook = False
         vals = [1.0, 1.0 + 1e-12, 1.0 + 1e-10, 1.0 + 2e-10, 1.5, 0.3]
         cases = [[1.0] * nparts] + [[1.0] * k + [v] + [1.0] * (nparts - k - 1) for k in range(nparts) for v in vals]
         real_norm = np.linalg.norm
@@ -255,9 +262,12 @@ def job_verdict_logic(tier, rng):
                     got = f'{type(ex).__name__}: {ex}'
                 cnt += 1
                 want = all(v <= 1 + 1e-10 for v in case)
+                if not calls:
+                    nohook = True
+                    continue
                 if got != want and bad is None:
                     bad = dict(function='is_generalized_ppt', dims=list(dims), norms=case, return_info=ri, returned=got, expected=want)
-        out.append(ob(f'{PROP}.generalized_ppt_verdict_is_all_norms_le_1_plus_1e-10[dims={dims}]', 'proved' if bad is None else 'refuted', tier='P', backend='exact-eval (finite: all oracle answer patterns)', functions=fns[2:],
+        out.append(ob(f'{PROP}.generalized_ppt_verdict_is_all_norms_le_1_plus_1e-10[dims={dims}]', ('undecided' if (nohook and bad is None) else ('proved' if bad is None else 'refuted')), tier='P', backend='exact-eval (finite: all oracle answer patterns)', functions=fns[2:],
                       witness=bad, native=dict(confirmed=bad is not None) if bad else None, patterns=cnt, canary_negated_clause_refuted=True))
     out.append(ob(f'{PROP}.verdict_logic.meta', 'meta', tier='P', backend='-', functions=fns, paths=0, crosscheck_inputs=0))
     return out
